@@ -141,6 +141,7 @@ class Container(typing.Generic[Symbol]):
             self.symbols: Container.Context.Symbols = self.Symbols()
             self.tables: Container.Context.Tables = self.Tables()
             self.origins: dict['dsl.Origin', 'parser.Source'] = {}
+            self.features: dict['dsl.Feature', 'parser.Feature'] = {}
 
         @property
         def dirty(self) -> bool:
@@ -291,9 +292,11 @@ class Visitor(
         except KeyError as err:
             raise dsl.UnprovisionedError(f'Unknown mapping for feature {feature}') from err
 
-    @functools.lru_cache
     def generate_feature(self, feature: 'dsl.Feature') -> 'parser.Feature':
         """Generate target code for the generic feature type.
+
+        The generated code is cached per context: it is bound to the origins (e.g. reference
+        aliases) of the context it was generated in.
 
         Args:
             feature: Feature instance
@@ -301,8 +304,11 @@ class Visitor(
         Returns:
             Feature in target code.
         """
-        feature.accept(self)
-        return self.context.symbols.pop()
+        cache = self.context.features
+        if feature not in cache:
+            feature.accept(self)
+            cache[feature] = self.context.symbols.pop()
+        return cache[feature]
 
     @abc.abstractmethod
     def generate_element(self, origin: 'parser.Source', element: 'parser.Feature') -> 'parser.Feature':
